@@ -130,6 +130,10 @@ pub mod registry;
 pub mod resource;
 pub mod system;
 pub mod world;
+#[cfg(brood_verif)]
+#[doc(hidden)]
+#[allow(missing_docs, clippy::pedantic)]
+pub mod verif;
 
 #[doc(hidden)]
 pub mod reexports;
